@@ -100,6 +100,22 @@ def rule_tls1(ctx: Ctx) -> RuleResult:
     rr = RuleResult("TLS-1", "every thread-local attribute read is safe in a thread that never wrote it", floor=2)
     tls_objs = find_tls_objects(ctx)
     if not tls_objs:
+        # a subclass of threading.local that is bound somewhere WITHOUT being instantiated: its class attributes are one set of
+        # values for every thread
+        hits = 0
+        for c in ctx.prog.all_classes():
+            if not any(norm(b).split(".")[-1] == "local" for b in c.node.bases):
+                continue
+            for m in ctx.prog.pkg_modules():
+                for n in ast.walk(m.tree):
+                    if isinstance(n, (ast.Assign, ast.AnnAssign)) and n.value is not None and isinstance(n.value, ast.Name) and n.value.id == c.name:
+                        hits += 1
+                        rr.instances += 2
+                        rr.ob(m.relpath, m.qual_of_node(n), norm(n)[:70], "per-thread state lives in an INSTANCE of a threading.local subclass",
+                              VIOLATED, f"`{norm(n)[:50]}` binds the class {c.name} itself, not an instance: attributes set through it are class "
+                              f"attributes, common to all threads - one generation's reference context is seen by every other thread", n.lineno)
+        if hits:
+            return rr
         raise AnalysisError("TLS-1: no threading.local object found (anchor vanished)")
     for tls in tls_objs:
         rr.analysed.append(f"thread-local object {tls!r} ({tls.module.relpath}:{tls.node.lineno})")
